@@ -46,14 +46,14 @@ Definition wh_bucket_index (s : Z) (n : nat) (d : Z) : option nat :=
 (* operations of a requester thread; a thread owns at most one WheelTimer, [wh_tint] is its
    [interval] field *)
 Inductive wh_op :=
-| WNew (d : Z)                 (* timer := wheel.NewTimer(d) *)
+| WhNew (d : Z)                 (* timer := wheel.NewTimer(d) *)
 | WReset (x : option Z)        (* timer.Reset() / timer.Reset(x) *)
 | WAfter (d : Z).              (* wheel.AfterFunc(d, callback) *)
 
 (* the duration handed to fetchWheelData, and the timer's interval field afterwards *)
 Definition wh_eff_duration (s : Z) (tint : Z) (op : wh_op) : Z * Z :=
   match op with
-  | WNew d => (d, d)
+  | WhNew d => (d, d)
   | WAfter d => (d, tint)
   | WReset None => (tint, tint)
   | WReset (Some x) => ((if (s <=? x)%Z then x else tint), tint)
